@@ -1386,6 +1386,34 @@ func (f *Flooder) HandleWakeCommand(fromPeer identity.AgentID, cmd *protocol.Wak
 	return true
 }
 
+// timestampDistance returns how far a command timestamp (Unix seconds) is from
+// now, as a non-negative duration. The distance is formed on whole seconds first:
+// time.Time.Sub saturates for instants more than about 292 years apart, and
+// negating the saturated minimum overflows back to a negative value, which would
+// pass every "distance > window" test. A distance that a time.Duration cannot
+// express is reported as the largest duration.
+func timestampDistance(timestamp uint64, now time.Time) time.Duration {
+	const maxDuration = time.Duration(1<<63 - 1)
+	if timestamp > 1<<63-1 {
+		return maxDuration // not a representable Unix time
+	}
+	ts, nowSec := int64(timestamp), now.Unix()
+	var seconds uint64
+	if ts >= nowSec {
+		seconds = uint64(ts) - uint64(nowSec)
+	} else {
+		seconds = uint64(nowSec) - uint64(ts)
+	}
+	if seconds >= uint64(maxDuration/time.Second) {
+		return maxDuration
+	}
+	d := now.Sub(time.Unix(ts, 0))
+	if d < 0 {
+		d = -d
+	}
+	return d
+}
+
 // verifySleepCommand verifies the signature on a sleep command.
 // Returns nil if verification passes, or an error describing why it failed.
 func (f *Flooder) verifySleepCommand(cmd *protocol.SleepCommand) error {
@@ -1400,11 +1428,7 @@ func (f *Flooder) verifySleepCommand(cmd *protocol.SleepCommand) error {
 	}
 
 	// Verify timestamp is within window (replay protection)
-	cmdTime := time.Unix(int64(cmd.Timestamp), 0)
-	timeDiff := time.Since(cmdTime)
-	if timeDiff < 0 {
-		timeDiff = -timeDiff
-	}
+	timeDiff := timestampDistance(cmd.Timestamp, time.Now())
 	if timeDiff > f.timestampWindow {
 		return fmt.Errorf("timestamp outside validity window (%v old, max %v)", timeDiff, f.timestampWindow)
 	}
@@ -1431,11 +1455,7 @@ func (f *Flooder) verifyWakeCommand(cmd *protocol.WakeCommand) error {
 	}
 
 	// Verify timestamp is within window (replay protection)
-	cmdTime := time.Unix(int64(cmd.Timestamp), 0)
-	timeDiff := time.Since(cmdTime)
-	if timeDiff < 0 {
-		timeDiff = -timeDiff
-	}
+	timeDiff := timestampDistance(cmd.Timestamp, time.Now())
 	if timeDiff > f.timestampWindow {
 		return fmt.Errorf("timestamp outside validity window (%v old, max %v)", timeDiff, f.timestampWindow)
 	}
